@@ -2,7 +2,7 @@ from kdriver import H
 HARNESSES = [
     H("c03_lookup_n4", 6, note="arbitrary table: 4 transitions (row 0 = dummy), 3 local time types, no footer; all instants (second and nanosecond of either sign)"),
     H("c03_lookup_n4_witness", 6, expect="witness"),
-    H("c03_lookup_n8", 10, tier="thorough", timeout=3000, note="8 transitions, 4 types"),
+    H("c03_lookup_n8", 10, tier="deep", timeout=3000, note="8 transitions, 4 types"),
 ]
 ASSUMPTIONS = [
     "tables satisfy the parser's representation invariant (row 0 at Timestamp::MIN, strictly increasing instants, type indices in range)",
